@@ -178,7 +178,7 @@ def observe(cfg, case, res):
         if v["k"] == "tee":
             name = "tee%d.out" % pos
             present = name in (res.get("files") or {})
-            recs = parse_items(res["files"][name]) if present else []
+            recs = parse_items(res["files"][name], csv=bool(werr)) if present else []
             tee.append({"i": pos, "recs": recs, "present": present})
     stderr = res.get("stderr", "")
     return {
